@@ -6,7 +6,7 @@ trials = json.load(open('/verif/seeded/trials.json'))
 for sid, t in sorted(trials.items()):
     parts = sid.split('-')               # C01-2 (round 1) or C01-r2-2 (round 2)
     pid, n = parts[0], parts[-1]
-    pre = 'seed2' if len(parts) == 3 else 'seed'
+    pre = ('seed' + parts[1][1:]) if len(parts) == 3 else 'seed'   # C01-r3-1 -> /tmp/seed3_C01_out
     src = f'/tmp/{pre}_{pid}_out/change{n}'
     if not os.path.exists(src + '/patch.diff'):
         if not os.path.exists(f'/verif/seeded/{sid}/patch.diff'): print('missing', sid)
@@ -33,7 +33,7 @@ for sid, t in sorted(trials.items()):
             'demo_with_change_exit': conf['demo_with_change_exit'],
             'repository_suite_with_change': conf['baseline_out'].strip().split('\n')[0],
             'confirmed': conf['confirmed'],
-            'cmd': ('SEED_PREFIX=seed2 ' if pre == 'seed2' else '') + 'lib/confirm_seed.py %s %s  (cargo test of the demo without / with the patch, then lib/baseline.sh = the repository suite compared with BASELINE.json stable_pass)' % (pid, n),
+            'cmd': ('SEED_PREFIX=%s ' % pre if pre != 'seed' else '') + 'lib/confirm_seed.py %s %s  (cargo test of the demo without / with the patch, then lib/baseline.sh = the repository suite compared with BASELINE.json stable_pass)' % (pid, n),
         },
         'check_trial': dict(t, cmd='lib/try_seed.sh seeded/%s/patch.diff %s   (git -C /repo apply; ./check %s --tier quick; git -C /repo checkout -- .)' % (sid, t['check'], t['check'])),
     }
